@@ -93,6 +93,23 @@ check('C02', TV,
       'SMT (z3) equivalence of the refutation condition of the real problems vs a reference model of external equivalence',
       'DESIGN.md 5 (C02)')
 
+check('C19', TV,
+      'For every task of the corpus (strong and external, including programs outside the reference fragment) and direction, '
+      'the problem families emitted under the 7 non-baseline combinations of decomposition x simplify x eq-break are '
+      'compared by z3 with the baseline family: an interpretation refutes some problem of one family iff it refutes some '
+      'problem of the other, over ALL classical interpretations.',
+      BASE_NOTE, 'SMT (z3) equivalence of refutation conditions across flag combinations of the real task decomposition',
+      'DESIGN.md 5 (C19)')
+check('C13', TV,
+      'For every enumerated outline attached to a small task, the real decomposition is checked problem by problem: z3 '
+      'decides that every axiom of a problem is entailed by the direction\'s reference premises, the accepted definitions '
+      'and the lemmas whose conjecture problems were all emitted earlier; that lemma conjectures are the closure of the lemma; '
+      'that the two obligations of an inductive lemma are exactly base and step (by semantic substitution); definition '
+      'acceptance is compared case by case with the reference acceptance predicate.',
+      BASE_NOTE + ' Premises per direction come from av/refext.py; soundness of the induction schema itself is stated, not solved.',
+      'SMT (z3) entailment/equivalence obligations over the real outline problems',
+      'DESIGN.md 5 (C13)')
+
 NOT_APPLICABLE = [
     ('C10', 'thread pool + process spawning + regex over prover output: no symbolic reach for Kani/CBMC (no concurrency/process model) and nothing for an SMT encoding to carry; see DESIGN.md 6'),
     ('C11', 'graph algorithms over HashMap/petgraph/IndexSet on concrete programs: nothing left for a solver to quantify over, and symbolic programs are out of reach (DESIGN.md 1.1, 6)'),
